@@ -107,7 +107,13 @@ func mixHash(h, v uint64) uint64 {
 func (f *recFSM) slow() {
 	run := f.inc.run
 	if run.cfg.SlowFSM > 0 && !f.inc.dead && run.phase == "chaos" && run.tape.Chance(rt.StMisc, run.cfg.SlowFSM, 1000) {
-		simtime.Sleep(time.Duration(1+run.tape.Choose(rt.StMisc, 8)) * run.cfg.HB / 8)
+		d := time.Duration(1+run.tape.Choose(rt.StMisc, 8)) * run.cfg.HB / 8
+		if run.tape.Chance(rt.StMisc, 1, 6) {
+			// now and then the state machine is stuck for several election timeouts
+			// (a long compaction of its own, a slow disk): everything else moves on meanwhile
+			d = time.Duration(2+run.tape.Choose(rt.StMisc, 6)) * run.cfg.HB
+		}
+		simtime.Sleep(d)
 	}
 }
 
@@ -250,6 +256,8 @@ type incObs struct {
 	cfgCheckedPrev      uint64
 	cfgCheckedSnap      uint64
 	tvTerm, tvVote      uint64
+	leaderClearedAt     int64
+	followerTimeoutAt   int64
 }
 
 type ledgers struct {
@@ -322,6 +330,7 @@ func (l *ledgers) onStarted(ni *nodeInc) {
 		}
 	}
 	o.lastTimeoutNow, o.lastConfigChange, o.lastElectionTimeout, o.heardAt = -1, -1, -1, -1
+	o.leaderClearedAt, o.followerTimeoutAt = -1, -1
 	o.tvTerm, o.tvVote = r.term, r.votedFor
 	l.onStartedVotes(ni)
 	if l.run.stop {
@@ -1105,6 +1114,16 @@ func (run *simRun) installTracer() {
 			ni.obs.lastConfigChange = run.sim.Now
 		}
 	}
+	tracer.leaderChanged = func(r *Raft) {
+		if ni := run.incOf(r); ni != nil && !ni.dead && ni.obs.started && r.leader == 0 {
+			ni.obs.leaderClearedAt = run.sim.Now
+		}
+	}
+	tracer.configCommitted = func(r *Raft) {
+		if ni := run.incOf(r); ni != nil && !ni.dead && ni.obs.started {
+			ni.obs.lastConfigChange = run.sim.Now // a committed demotion of the leader makes followers forget it
+		}
+	}
 	tracer.configReverted = func(r *Raft) {
 		if ni := run.incOf(r); ni != nil && !ni.dead && ni.obs.started {
 			ni.obs.lastConfigChange = run.sim.Now
@@ -1162,6 +1181,10 @@ func (run *simRun) probe(name string, args []interface{}) {
 			if t, err := r.storage.getEntryTerm(idx); err == nil {
 				run.led.checkDurableOnMajority(ni, idx, t, "commit index of leader")
 			}
+		}
+	case "follower.onTimeout:enter":
+		if ni := run.incOf(args[0].(*follower).Raft); ni != nil && !ni.dead && ni.obs.started {
+			ni.obs.followerTimeoutAt = run.sim.Now
 		}
 	case "Raft.onVoteRequest:enter":
 		if ni := run.incOf(args[0].(*Raft)); ni != nil && !ni.dead && ni.obs.started {
